@@ -137,6 +137,9 @@ class Emitter:
                 return 'true', 'BOOL'
             if e[1] == 'false':
                 return 'false', 'BOOL'
+            if e[1].startswith('core::mem::align_of::<') or e[1].startswith('align_of::<'):
+                tn = e[1].split('<')[1].rstrip('>')
+                return str({'u8': 1, 'u16': 2, 'u32': 4, 'u64': 8}[tn]), 'USZ'
             if e[1].endswith('::MAX') or e[1].endswith('::MIN'):
                 tn, which = e[1].split('::')
                 ty = INT_TYPES[tn]
@@ -152,15 +155,21 @@ class Emitter:
                 t, frm = self.expr(e[1])
                 if frm == 'BOOL':
                     return '(if %s then 1 else 0)' % t, to
+                if frm.startswith('PTR'):
+                    frm = 'U64'
+                    if to in ('U64', 'USZ'):
+                        return t, to
                 if frm == to:
                     return t, to
                 return '(cast %s %s)' % (to, t), to
             if tn.startswith('*'):
                 # pointer casts keep the address: value-preserving on a 64-bit target
+                pointee = tn.split()[-1]
+                pty = 'PTR:' + {'AtomicU32': 'A32', 'AtomicU64': 'A64'}.get(pointee, INT_TYPES.get(pointee, '?'))
                 t, frm = self.expr(e[1])
-                if frm in ('U64', 'USZ', 'PTR'):
-                    return t, 'PTR'
-                return '(cast U64 %s)' % t, 'PTR'
+                if frm in ('U64', 'USZ') or frm.startswith('PTR'):
+                    return t, pty
+                return '(cast U64 %s)' % t, pty
             raise Unsupported("cast to %s" % tn)
         if k == 'un':
             op = e[1]
@@ -198,6 +207,8 @@ class Emitter:
                 finally:
                     self.locals = saved
             raise Unsupported("macro %s!" % e[1])
+        if k == 'call' and e[1][0] == 'path' and 'align_of::<' in e[1][1] and not e[2]:
+            return self.expr(e[1], expect)
         if k == 'if':
             c, _ = self.expr(e[1])
             nb = len(self.binds)
@@ -248,7 +259,13 @@ class Emitter:
             nb = len(self.binds)
             b, _ = self.expr(r)
             if len(self.binds) != nb:
-                raise Unsupported("checked arithmetic on the right of a lazy boolean operator")
+                # the right operand is evaluated (and may panic) only when the left one does not decide
+                rb = self.binds[nb:]
+                del self.binds[nb:]
+                inner = Emitter.wrap_binds(rb, 'Ok %s' % b)
+                if op == '&&':
+                    return self.hoist('(if %s then %s else Ok false)' % (a, inner)), 'BOOL'
+                return self.hoist('(if %s then Ok true else %s)' % (a, inner)), 'BOOL'
             return '(%s %s %s)' % (a, op, b), 'BOOL'
         if op in ('<<', '>>'):
             a, ta = self.expr(l, expect)
@@ -262,9 +279,9 @@ class Emitter:
         else:
             a, ta = self.expr(l, expect if op not in ('==', '!=', '<', '>', '<=', '>=') else None)
             b, tb = self.expr(r, ta)
-        if ta == 'PTR':
+        if ta.startswith('PTR'):
             ta = 'U64'
-        if tb == 'PTR':
+        if tb.startswith('PTR'):
             tb = 'U64'
         if ta != tb and not (self.is_literal(l) or self.is_literal(r)):
             raise Unsupported("line %s: operand types differ: %s %s %s" % (ln, ta, op, tb))
@@ -320,7 +337,13 @@ class Emitter:
         if name == 'wrapping_offset':
             a, ta = self.expr(recv)
             b, tb = self.expr(args[0], 'ISZ')
-            return '(wadd U64 %s %s)' % (a, b), 'PTR'
+            return '(wadd U64 %s %s)' % (a, b), ta
+        if name == 'read_unaligned':
+            a, ta = self.expr(recv)
+            if not ta.startswith('PTR:') or ta[4:] not in SIGNED | {'U8', 'U16', 'U32', 'U64'}:
+                raise Unsupported("line %s: read_unaligned on %s" % (ln, ta))
+            w = {'U8': 1, 'U16': 2, 'U32': 4, 'U64': 8}[ta[4:]]
+            return '(mload m %s %d)' % (a, w), ta[4:]
         if name == 'div_ceil':
             a, ta = self.expr(recv, expect)
             b, _ = self.expr(args[0], ta)
